@@ -389,6 +389,26 @@ func TestC16(t *testing.T) {
 	if toy.count("HelperReset")+toy.count("hidden") > 0 {
 		ev.Violate("helper-or-unexported-method-ran", map[string]interface{}{"HelperReset": toy.count("HelperReset"), "hidden": toy.count("hidden")})
 	}
+	// registrations made after requests were already handled take effect
+	if err := toyServer.RegisterMethod("toy_late", toy, "Gamma"); err != nil {
+		t.Fatal(err)
+	}
+	before := toy.count("Gamma")
+	code, msg := caller("toy_late", "[]")
+	ev.Case("toy/name/toy_late", true)
+	if code != 0 || toy.count("Gamma") != before+1 {
+		ev.Violate("late-registration-not-callable", map[string]interface{}{"code": code, "err": msg})
+	}
+	if err := toyServer.RegisterMethod("toy_beta", toy, "Gamma"); err != nil { // re-point an existing name
+		t.Fatal(err)
+	}
+	beforeG, beforeB := toy.count("Gamma"), toy.count("Beta")
+	code, msg = caller("toy_beta", "[]")
+	ev.Case("toy/name/toy_beta-repointed", true)
+	if code != 0 || toy.count("Gamma") != beforeG+1 || toy.count("Beta") != beforeB {
+		ev.Violate("re-registration-still-runs-old-method", map[string]interface{}{"code": code, "err": msg, "gamma_ran": toy.count("Gamma") - beforeG, "beta_ran": toy.count("Beta") - beforeB})
+	}
+	toyServer.RegisterMethod("toy_beta", toy, "Beta")
 	// without allow-list every exported method is registered, nothing else
 	toy2 := &ToyService{}
 	all := &jsonrpc2.Server{}
